@@ -158,13 +158,38 @@ func (x *Exec) staticCall(st *State, fr *Frame, ci *ssa.Call, callee *ssa.Functi
 	name := callee.String()
 	tc := x.contractFor(fr.fn)
 	rel := relName(callee)
+	if tc != nil && tc.callPres != nil {
+		cps := tc.callPres[rel]
+		if cps == nil {
+			cps = tc.callPres[name]
+		}
+		for k, cp := range cps {
+			env := &Env{x: x, st: st, oldSt: st.entry, vars: map[string]SV{}, pkg: fr.fn.Pkg.Pkg}
+			if fr.fn == x.target {
+				for n, v := range st.lets {
+					env.vars[n] = v
+				}
+			}
+			env.lookup = x.localResolver(st, fr, ci.Block())
+			for i, a := range args {
+				env.vars[fmt.Sprintf("a%d", i)] = a
+			}
+			t, err := env.EvalBool(cp.expr)
+			if err != nil {
+				panic(abortErr{fmt.Sprintf("%s:%d: callpre %s: %v", cp.file, cp.line, cp.text, err)})
+			}
+			_, txt := x.srcLine(ci.Pos())
+			x.oblige(st, fmt.Sprintf("callpre:%s>%s#%d:%s", x.targetName(), shortFn(rel), k+1, txt), "pre", "at the call of "+rel+": "+cp.text, ci.Pos(), t)
+			st.assume(t)
+		}
+	}
 	if tc != nil && tc.callMods != nil {
 		cm := tc.callMods[rel]
 		if cm == nil {
 			cm = tc.callMods[name]
 		}
 		if cm != nil {
-			if c := x.contractFor(callee); c == nil || c.hasMod || c.inline {
+			if c := x.contractFor(callee); c == nil || c.hasMod || c.inline || contains(tc.opaque, rel) || contains(tc.opaque, name) {
 				x.callModCall(st, fr, ci, name, cm)
 				return true
 			}
@@ -344,6 +369,10 @@ func (x *Exec) callModLocs(st *State, fr *Frame, ci *ssa.Call, cm *Clause) []mod
 		}
 	}
 	env.lookup = x.localResolver(st, fr, ci.Block())
+	// the actual arguments of the call (receiver first) are a0, a1, ...
+	for i, a := range ci.Call.Args {
+		env.vars[fmt.Sprintf("a%d", i)] = fr.get(x, a)
+	}
 	var locs []modLoc
 	for _, e := range cm.exprs {
 		func() {
